@@ -24,6 +24,10 @@ claimed={
         "recordPegnetRequests and the bank table writers are assumed contracts so far. Ghost axioms for finite sums over map domains are listed in the evidence.","6/C16"),
  "C17":("Unbounded proof of the status representation invariant (executed > 0 iff relation rows exist) across applyTransactionBatch, ApplyTransactionBlock and ApplyTransactionBatchesInHolding, including 'no dropped status-write error'; recorded converted amount is the credited SSA value.",
         "'Replaying recorded history reproduces balances' and paging exactly-once are whole-history / SQL-semantics statements and are not decided. Known finding F11 (nil returned unapplied).","6/C17"),
+ "C19":("Unbounded proof of CheckHardForks against the property's iff-specification over the ghost version table: the legacy back-fill inserts a (fork height, -1) marker for every fork height reached by a database without version rows, and the node is refused iff some fork at or below the top height has a block at or above it synced with too old a version (markers count as -1) or a newer build synced something; a legacy database that reached a fork block is refused (F13, fixed).",
+        "The six query/insert leaves of node/pegnet/admin.go and metadata.go are assumed contracts (SQL); envHealthy is assumed for the iff (a failing statement at start-up is outside this property). InsertSynced/NewPegnetd glue is covered under C02.","6/C19"),
+ "C20":("Unbounded proof of the exact-or-rejected conversion of decimal strings to base units in FactoidToFactoshi (no silent wrap-around: overflow obligations on every arithmetic operation; result equals whole*1e8 + frac*10^(8-len) in terms of ghost digit-string functions; F2, fixed) and of the structural validation of decoded batches (exactly one of transfers/conversion, sum of transfers == input, amounts within int64, one input address).",
+        "Acceptance of exactly the canonical JSON language and the encode/decode round trip need a formal model of encoding/json and jsonlen and are NOT decided. regexp/strconv/math.Pow10 behaviour on these three patterns is an assumed extern contract (strings.spec).","6/C20"),
 }
 na={p['id']:"check not built yet (work in progress; see DESIGN.md section 10)" for p in props if p['id'] not in claimed}
 checks=[]
